@@ -33,9 +33,9 @@ na=[{"property_id":i,"reason":NA_REASON.get(i,"static check not yet built (see D
 m={"version":1,
 "setup_cmd":"cd /verif/sa && GOFLAGS=-mod=mod GOPROXY=off go build -o ../bin/sa ./cmd/sa",
 "hooks":{"guard":"verif","enable":"none needed: static analysis reads /repo sources; no instrumentation is compiled in","baseline_off_cmd":"/verif/tools/baseline.sh","source_commits":[],"add_only":True},
-"engines":[{"name":"sa","path":"/verif/sa","serves_properties":sorted(reg),"kind_free_text":"repository-specific static analyzer over go/packages + go/ssa: path rules (reachability with deletions, boolean-phi path sensitivity, small product automata), value provenance, field-writer / caller indexes, lockset"}],
+"engines":[{"name":"sa","path":"/verif/sa","serves_properties":sorted(reg),"kind_free_text":"repository-specific static analyzer over go/packages + go/ssa: path rules (reachability with deletions, phi/nil path sensitivity, small product automata), value provenance, field-writer / caller indexes, lockset, typed-AST catalogue tables; the tree under analysis is first normalised against the declaration table of the pinned tree (renames, method<->function, inlining of functions the pinned tree does not have, result-variable returns) so that behaviour-preserving refactorings are judged like the pinned tree"}],
 "checks":checks,
-"notes":"All checks are static (no code of /repo is executed). Exit 0 held / 1 VIOLATION / 2 UNDECIDED (anchor missing, load error). Genuine defects found are recorded in known_findings.json.",
+"notes":"All checks are static (no code of /repo is executed; the normalisation of DESIGN.md section 10a works on in-memory overlays and is reported in each run as note: lines). Exit 0 held / 1 VIOLATION / 2 UNDECIDED (anchor missing, load error). Genuine defects found are recorded in known_findings.json.",
 "not_applicable":na}
 json.dump(m,open('MANIFEST.json','w'),indent=1)
 print(len(checks),'checks;',len(na),'not applicable')
